@@ -1,8 +1,20 @@
 #!/usr/bin/env python3
 """prints the task for an independent 'break the property' agent; it contains ONLY the property's text"""
 import json, sys
+import glob, os
 pid = sys.argv[1]
-wt = "/tmp/seed_%s" % pid
+rnd = int(sys.argv[2]) if len(sys.argv) > 2 else 1          # round 1: A/B, round 2: C/D, round 3: E/F
+L1, L2 = "ACE"[rnd - 1], "BDF"[rnd - 1]
+wt = ("/tmp/seed_%s" if rnd == 1 else "/tmp/seed%d_%%s" % rnd) % pid
+used = ""
+if rnd > 1:
+    # the earlier rounds' changes are named (their summaries only) so that the new ones differ from them
+    items = []
+    for m in sorted(glob.glob("/verif/seeded/%s-*/meta.json" % pid)):
+        items.append("  - " + " ".join(json.load(open(m))["summary"].split())[:330])
+    used = ("\nALREADY USED IN EARLIER ROUNDS (do NOT repeat these mechanisms or close variants; pick different places in the code and "
+            "different kinds of mistake — e.g. other functions that take part in the property, glue/entry points, caching, ordering, "
+            "error paths, default arguments, type checks, state shared between calls):\n" + "\n".join(items) + "\n")
 for l in open('/verif/properties.jsonl'):
     p = json.loads(l)
     if p['id'] == pid:
@@ -14,8 +26,8 @@ Do not read, list or touch /verif or /repo (the worktree is a full copy of the s
 THE PROPERTY ({p['id']} — {p['title']}):
   Statement: {p['statement']}
   It must hold: {p['quantifier']['text']}
-
-YOUR TASK: produce TWO different changes (A and B, different mechanisms / different places in the code) to the
+{used}
+YOUR TASK: produce TWO different changes ({L1} and {L2}, different mechanisms / different places in the code) to the
 project's source under {wt}/insights that each BREAK this property while the code still imports and the project's
 existing test suite still passes. Prefer realistic regressions a maintainer could plausibly introduce (a refactor that
 drops a guard, an off-by-one, a changed default, a reordered step, a cache that is not invalidated, a swapped branch,
@@ -23,7 +35,7 @@ two cooperating sites that each look fine alone) that need something SPECIFIC to
 interleaving / order, a fault at a particular point, a multi-step sequence of operations, an unusual input — not
 something every ordinary use would expose at once. Do not edit tests. Keep each change small (a few lines).
 
-For EACH change deliver, in {wt}/seed_out/A/ and {wt}/seed_out/B/:
+For EACH change deliver, in {wt}/seed_out/{L1}/ and {wt}/seed_out/{L2}/:
   - patch.diff   : `git -C {wt} diff -- insights` of that change alone (relative to HEAD; apply-able with `git apply`)
   - demo.py      : a small self-contained program (stdlib + the project only) that exits 0 and prints PASS on the
                    unchanged code and exits 1 and prints FAIL (with what it observed) on the changed code; it must
@@ -33,16 +45,18 @@ For EACH change deliver, in {wt}/seed_out/A/ and {wt}/seed_out/B/:
 
 HOW TO RUN THINGS (offline sandbox, no network):
   - python with the project's dependencies: /venv/bin/python . To make it import the worktree's code (not another copy),
-    run from the worktree directory with PYTHONPATH set:  cd {wt} && PYTHONPATH={wt} /venv/bin/python seed_out/A/demo.py
+    run from the worktree directory with PYTHONPATH set:  cd {wt} && PYTHONPATH={wt} /venv/bin/python seed_out/{L1}/demo.py
     (check with `python -c "import insights; print(insights.__file__)"` that it prints a path under {wt}).
   - the existing test suite (takes about 70 s; about 50 tests fail even on the unchanged code — compare the set of
     failures before/after, the change must not add any):
        cd {wt} && PYTHONPATH={wt} /venv/bin/python -m pytest -q -p no:cacheprovider --timeout=900 --continue-on-collection-errors -x -q 2>&1 | tail -5
+    (other people run the same suite at the same time and insights/tests/specs uses fixed /tmp paths, so a few of its tests
+    flake under concurrency: re-run any NEW failure alone before blaming your change)
     (drop -x to get the full failure list; `... | grep -E "^(FAILED|ERROR)" | sort > /tmp/fails_{pid}_X.txt` and diff against the unchanged run).
-  - work on ONE change at a time: make change A, verify (suite + demo), save patch A with git diff, then `git -C {wt} checkout -- insights`
-    and verify the demo passes on the unchanged code; then do the same for B. Leave the worktree with NO source changes at the end
+  - work on ONE change at a time: make change {L1}, verify (suite + demo), save patch {L1} with git diff, then `git -C {wt} checkout -- insights`
+    and verify the demo passes on the unchanged code; then do the same for {L2}. Leave the worktree with NO source changes at the end
     (only the seed_out/ directory added).
 
-FINAL MESSAGE: for each of A and B: one paragraph (what changed, why it breaks the property, what it needs to manifest),
+FINAL MESSAGE: for each of {L1} and {L2}: one paragraph (what changed, why it breaks the property, what it needs to manifest),
 the suite result (failures before vs after), the demo output with and without the change, and the paths of the three files.
 If you could only produce one valid change, say so. Do not ask questions; work autonomously.""")
